@@ -4,7 +4,7 @@ The filters are Cython modules and this image has no Cython: /repo's .pyx cannot
 to SMT.  What IS plain Python inside fir.pyx - the FirFilter class (process / get_remaining / reset_state / convolve_valid) - is cut
 out of the CURRENT fir.pyx text, compiled as Python and executed symbolically on index-map arrays (`Np` below): an output sample is
 represented by the window of input positions it is computed from, so "same samples as feeding one block" is equality of windows.
-Counterexamples are replayed on the COMPILED smpl_extract.filters.fir.FirFilter with real numpy.
+Counterexamples are replayed with real numpy on the class as fir.pyx defines it (and on the compiled .so, whose disagreement is noted).
   C19.fir/k-blocks   split into k = 2, 3 blocks vs one block, total outputs == total inputs, symbolic taps N, delay m0, block lengths
   C19.reset          reset_state() makes the filter behave like a new one
   C19.sat            _c_bound_and_fix (fir.pyx) and _c_bound/_c_fix_int (iir.pyx): text -> z3 QF_FP by a mini-translator that accepts
@@ -44,6 +44,10 @@ class Arr:
         return Arr(self.n, self.at, dt)
 
     def __getitem__(self, sl):
+        r = self._slice(sl)
+        return r
+
+    def _slice(self, sl):
         if not (isinstance(sl, slice) and sl.step is None):
             raise NotImplementedError
         n, at = self.n, self.at
@@ -81,12 +85,17 @@ class Win:
         return self
 
 
+def _promote(a, b):
+    import numpy as _np
+    return _np.result_type(_np.dtype(a), _np.dtype(b)).str
+
+
 class Np:
     ndarray = object
 
     @staticmethod
     def zeros(n, dtype=None):
-        return Arr(n, lambda i: ZERO)
+        return Arr(n, lambda i: ZERO, "f8" if dtype is None else dtype)
 
     @staticmethod
     def size(a):
@@ -102,13 +111,13 @@ class Np:
     def concatenate(parts):
         a, b = parts
         na, aa, ba = a.n, a.at, b.at
-        return Arr(a.n + b.n, lambda i: aa(i) if i < na else ba(i - na))
+        return Arr(a.n + b.n, lambda i: aa(i) if i < na else ba(i - na), _promote(a.dtype, b.dtype))
 
     @staticmethod
     def convolve(x, h, mode):
         if mode != "valid":
             raise NotImplementedError
-        return Win(x.n - h.n + 1, x, h.n)
+        return Win(x.n - h.n + 1, x, h.n, _promote(x.dtype, h.dtype))      # dtype the sums are accumulated in
 
 
 def _abstract_cls():
@@ -117,10 +126,30 @@ def _abstract_cls():
     return ns["FirFilter"]
 
 
-def _real_run(N, m0, lens):
-    """replay on the compiled filter with real numpy: split run vs one block; returns True iff they agree"""
+def _real_cls():
+    """the class as the working tree's fir.pyx defines it, run with REAL numpy (the class body is plain Python).  The compiled .so is an
+    untracked build artefact that cannot be regenerated here (no Cython); it is consulted too and a disagreement is printed."""
     import numpy as np
-    from smpl_extract.filters.fir import FirFilter
+    ns = {"np": np, "Optional": None}
+    exec(compile(_cut_class(), "fir.pyx:FirFilter", "exec"), ns)
+    return ns["FirFilter"]
+
+
+def _real_run(N, m0, lens, cls=None):
+    """replay with real numpy: split run vs one block; returns True iff they agree"""
+    import numpy as np
+    if cls is None:
+        src_ok = _real_run(N, m0, lens, _real_cls())
+        try:
+            from smpl_extract.filters.fir import FirFilter as Compiled
+            so_ok = _real_run(N, m0, lens, Compiled)
+            if so_ok != src_ok:
+                print("note: compiled fir.so %s but fir.pyx source %s on N=%d m0=%d blocks=%s (stale build artefact?)"
+                      % ("agrees" if so_ok else "fails", "agrees" if src_ok else "fails", N, m0, lens))
+        except Exception:
+            pass
+        return src_ok
+    FirFilter = cls
     rng = np.random.RandomState(7 * N + m0 + sum(lens))
     h = rng.uniform(-1, 1, N)
     x = rng.uniform(-100, 100, sum(lens))
@@ -177,6 +206,61 @@ def h_blocks(k: int, N: int, m0: int, L1: int, L2: int, L3: int, o: int, t: int)
     return 1
 
 
+def h_preset(k: int, L1: int, L2: int, L3: int, o: int, t: int) -> int:
+    """
+    pre: 2 <= k <= 3 and 7 <= L1 <= 12 and 7 <= L2 <= 12 and 7 <= L3 <= 12
+    pre: 0 <= o and 0 <= t < 8
+    post: _ == 1
+    """
+    CNT[0] += 1
+    # the CDXtract de-emphasis preset: taps, delay and the dtypes of taps / int16 PCM input as the live module defines them
+    import numpy as np
+    import smpl_extract.filters.common as common
+    k = conc(k, 2, 3)
+    lens = [L1, L2, L3][:k]
+    hreal = common._cdxtract_roland_deemph_h
+    N = len(hreal)
+    if REAL:
+        f = common.CdXtractRolandDeemphFilter()
+        x = np.full(sum(int(v) for v in lens), 32767, dtype=np.int16)
+        x[::5] = -1234
+        one = np.concatenate([f.process(x), f.get_remaining()])
+        g = common.CdXtractRolandDeemphFilter()
+        parts, p = [], 0
+        for L in lens:
+            parts.append(g.process(x[p:p + int(L)]))
+            p += int(L)
+        parts.append(g.get_remaining())
+        split = np.concatenate(parts)
+        return 1 if (len(one) == len(split) == len(x) and bool((one == split).all())) else 0
+    FirFilter = _abstract_cls()
+    f = FirFilter(Arr(N, lambda i: ZERO, hreal.dtype.str), 0)
+    outs, base = [], 0
+    for L in lens:
+        outs.append(f.process(Arr(L, (lambda b: (lambda i: b + i))(base), "<i2")))
+        base = base + L
+    outs.append(f.get_remaining())
+    total = 0
+    for w in outs:
+        total = total + len(w)
+    if total != base:
+        return 0
+    one_block_dtype = _promote(_promote("f8", "<i2"), hreal.dtype.str)      # zeros(m1) ++ int16 block, convolved with the taps
+    if o < total:
+        b0 = 0
+        for w in outs:
+            if o < b0 + len(w):
+                if w.dtype != one_block_dtype:
+                    return 0                        # the same sample would be accumulated in another precision than in the one-block run
+                src = w.x.at(o - b0 + t)
+                want = o - (N - 1) + t
+                if want < 0 or want >= base:
+                    want = ZERO
+                return 1 if src == want else 0
+            b0 = b0 + len(w)
+    return 1
+
+
 def h_reset(N: int, m0: int, L1: int, L2: int, o: int, t: int) -> int:
     """
     pre: 2 <= N <= 8 and 0 <= m0 < N
@@ -187,7 +271,7 @@ def h_reset(N: int, m0: int, L1: int, L2: int, o: int, t: int) -> int:
     CNT[0] += 1
     if REAL:
         import numpy as np
-        from smpl_extract.filters.fir import FirFilter
+        FirFilter = _real_cls()
         rng = np.random.RandomState(3)
         h = rng.uniform(-1, 1, int(N))
         x1, x2 = rng.uniform(-9, 9, int(L1)), rng.uniform(-9, 9, int(L2))
@@ -357,6 +441,7 @@ def obligations(tier, seed):
                   "N <= 8, blocks 1..12 samples"))
     obs.append(ob("C19.fir/3-blocks", "h_blocks", ["k == 3"],
                   "taps N, delay m0, block lengths, output index, tap", "N <= 8, blocks 1..12 samples"))
+    obs.append(ob("C19.preset/cdxtract", "h_preset", [], "2 or 3 block lengths, output index, tap", "CDXtract taps (8) from the live module, int16 input, blocks 7..12"))
     obs.append(ob("C19.reset", "h_reset", [], "taps, delay, block lengths, output index, tap", "N <= 8, blocks N-1..12"))
     for which in ("fir", "iir"):
         obs.append(dict(name=f"C19.sat/{which}", engine="P", module="vf.props.c19", func="p_sat", params={"which": which}, timeout=120,
